@@ -855,6 +855,10 @@ func (v *ValGen) Type(t *TypeRecipe) any {
 			outA[k] = val
 			outS[fmt.Sprint(k)] = val
 		}
+		if t.Keys.Kind == "int" && n >= 1 && (t.Max == nil || int64(n) < *t.Max) && s.Choose("v.mdupkey", 4) == 3 {
+			// two raw keys that mean the same key (0 and "0"), with values of their own
+			outA["0"] = v.Type(t.Values)
+		}
 		v.depth--
 		if useAnyKeys || t.Keys.Kind == "int" {
 			return outA
